@@ -3,12 +3,14 @@
    bounds of each part, evaluates the allowed outcome classes with SumGrader!Allowed and checks the laws; the dump
    (variables c = case, io = the concrete objects, out = allowed classes) is replayed into the real SumGrader.
 
-   parts:  value    limits^2 x even_odd x summand catalogue x transformations (all four boxes, default tolerance)
+   parts:  value    limits^2 x even_odd x summand catalogue x transformations (all four boxes, default tolerance);
+                    run "wide" is the same part with limits up to [-12, 12] and the product (summand x transformation
+                    x parity) thinned along diagonals (Stride)
            pos      every subset of input_positions x box order x transformations
            tol      tolerance kinds x perturbation sizes x real / complex / vector summands
-           inf      infinite limits x convergent summands x cutoffs
+           inf      infinite limits x convergent summands x cutoffs (1/n! selects the factorial cutoff)
            err      faults in the author's sum x faults in the submission x subsets of input_positions
-           algebra  laws of Index / SumOf themselves (not replayed) *)
+           algebra  laws of Index / SumOf / the rational comparison themselves (not replayed) *)
 EXTENDS SumGrader
 CONSTANTS Part, L, Cut, Stride
 
